@@ -13,6 +13,9 @@ def main():
     try:
         t = vlib.build(bins)
         print(f"built {len(bins)} executor binaries in {t:.0f}s")
+        # the --release executors (quick tier: scenarios with panicking calls + a sample; thorough tier: everything again)
+        t = vlib.build(bins, release=True)
+        print(f"built {len(bins)} executor binaries (--release) in {t:.0f}s")
     except vlib.ToolError as e:
         sys.stderr.write(f"setup: {e}\n")
         return 2
